@@ -12,7 +12,7 @@
    - C04_flag_after_move / C04_flag_after_construction: the flag stored by every successful move application and by every
      successful construction equals "no legal move" of the resulting position, so C04_status applies after every ply.
    C04_material: the popcount-based material test equals the rule-level count. *)
-Require Import LC.model.Prims LC.model.Board LC.spec.Chess LC.proofs.MaskInv LC.proofs.C05Proofs LC.proofs.C04Spec LC.proofs.C04Proofs.
+Require Import LC.model.Prims LC.model.Board LC.spec.Chess LC.proofs.MaskInv LC.proofs.C05Proofs LC.proofs.C04Spec LC.proofs.C04Proofs LC.proofs.Reach.
 Open Scope N_scope.
 Theorem C04_terminal_flag : forall K b, MaskInv b -> valid (abs b) = true ->
   update_terminal_status K b = Ok (with_term b (no_moves (abs b))).
@@ -38,3 +38,9 @@ Proof. exact TermInv_move. Qed.
 Theorem C04_flag_after_construction : forall K bd b', try_from_builder K bd = Ok b' -> MaskInv b' -> valid (abs b') = true ->
   b_term b' = no_moves (abs b').
 Proof. exact TermInv_build. Qed.
+(* in every position obtained by construction and play all hypotheses hold: the status is the rule-given one at every ply *)
+Theorem C04_reachable : forall K b, wreachable K b ->
+  b_term b = no_moves (abs b) /\ get_status b = Ok (enc_status (board_status (abs b))).
+Proof.
+  intros K b R. destruct (wreachable_good K b R) as [[I _] D V T]. split; [exact T|]. exact (get_status_spec b I V D T).
+Qed.
